@@ -105,7 +105,7 @@ def _prestate_and_work(name):
 
     table = {"cold_big": (none, cold_big, SRC_BIG, {}), "cold_big_z": (none, lambda fs, clock: _session(fs, clock, SRC_BIG, compress=True)[0].cache(_session(fs, clock, SRC_BIG, compress=True)[1])(1), SRC_BIG, {"compress": True}),
              "cold": (none, cold, SRC_V1, {}), "warm": (one_entry, cold, SRC_V1, {}),
-             "source_change": (one_entry, source_change, SRC_V2, {}), "invalidate": (one_entry, invalidate, SRC_V1, {}),
+             "source_change": (three_entries, source_change, SRC_V2, {}), "invalidate": (one_entry, invalidate, SRC_V1, {}),
              "shelve": (none, shelve, SRC_V1, {}), "compressed": (none, compressed, SRC_V1, {"compress": True}),
              "reduce_size": (three_entries, reduce_size, SRC_V1, {}), "clear": (three_entries, clear, SRC_V1, {})}
     return table[name]
